@@ -1,5 +1,6 @@
 from abc import abstractmethod
 from dataclasses import dataclass, field
+from functools import partial
 from typing import overload
 import inspect
 
@@ -1413,12 +1414,12 @@ class Vmap(Generic[X, R], GFI[X, R]):
         **kwargs,
     ) -> Trace[X, R]:
         return modular_vmap(
-            self.gen_fn.simulate,
+            partial(self.gen_fn.simulate, **kwargs),
             in_axes=self.in_axes.value,
             axis_size=self.axis_size.value,
             axis_name=self.axis_name.value,
             spmd_axis_name=self.spmd_axis_name.value,
-        )(*args, **kwargs)
+        )(*args)
 
     def generate(
         self,
@@ -1428,12 +1429,12 @@ class Vmap(Generic[X, R], GFI[X, R]):
     ) -> tuple[Trace[X, R], Weight]:
         in_axes = (0,) + self._callee_in_axes(len(args))
         tr, w = modular_vmap(
-            self.gen_fn.generate,
+            partial(self.gen_fn.generate, **kwargs),
             in_axes=in_axes,
             axis_size=self.axis_size.value,
             axis_name=self.axis_name.value,
             spmd_axis_name=self.spmd_axis_name.value,
-        )(x, *args, **kwargs)
+        )(x, *args)
         return tr, jnp.sum(w)
 
     def assess(
@@ -1444,12 +1445,12 @@ class Vmap(Generic[X, R], GFI[X, R]):
     ) -> tuple[Density, R]:
         in_axes = (0,) + self._callee_in_axes(len(args))
         density, retval = modular_vmap(
-            self.gen_fn.assess,
+            partial(self.gen_fn.assess, **kwargs),
             in_axes=in_axes,
             axis_size=self.axis_size.value,
             axis_name=self.axis_name.value,
             spmd_axis_name=self.spmd_axis_name.value,
-        )(x, *args, **kwargs)
+        )(x, *args)
         return jnp.sum(density), retval
 
     def update(
@@ -1461,12 +1462,12 @@ class Vmap(Generic[X, R], GFI[X, R]):
     ) -> tuple[Trace[X, R], Weight, X | None]:
         in_axes = (0, 0) + self._callee_in_axes(len(args))
         new_tr, w, discard = modular_vmap(
-            self.gen_fn.update,
+            partial(self.gen_fn.update, **kwargs),
             in_axes=in_axes,
             axis_size=self.axis_size.value,
             axis_name=self.axis_name.value,
             spmd_axis_name=self.spmd_axis_name.value,
-        )(tr, x_, *args, **kwargs)
+        )(tr, x_, *args)
         return new_tr, jnp.sum(w), discard
 
     def regenerate(
@@ -1478,12 +1479,12 @@ class Vmap(Generic[X, R], GFI[X, R]):
     ) -> tuple[Trace[X, R], Weight, X | None]:
         in_axes = (0, None) + self._callee_in_axes(len(args))
         new_tr, w, discard = modular_vmap(
-            self.gen_fn.regenerate,
+            partial(self.gen_fn.regenerate, **kwargs),
             in_axes=in_axes,
             axis_size=self.axis_size.value,
             axis_name=self.axis_name.value,
             spmd_axis_name=self.spmd_axis_name.value,
-        )(tr, s, *args, **kwargs)
+        )(tr, s, *args)
         return new_tr, jnp.sum(w), discard
 
     def merge(
